@@ -55,10 +55,12 @@ Tpl ==
     t16 |-> TX(<<CI("c5")>>,               <<CO("t16:0")>>,            1, 1, 1, 1, "b1"),
     t17 |-> TX(<<CI("c6")>>,               <<>>,                       3, 1, 1, 1, "b1"),
     t18 |-> TX(<<CI("t16:0")>>,            <<>>,                       2, 1, 1, 1, "none"),
-    t19 |-> TX(<<CI("t1:1"), CI("t6:0")>>, <<>>,                       6, 2, 1, 2, "none") ]
+    t19 |-> TX(<<CI("t1:1"), CI("t6:0")>>, <<>>,                       6, 2, 1, 2, "none"),
+    t20 |-> TX(<<CI("t1:1")>>,             <<>>,                       3, 1, 1, 2, "none"),
+    t21 |-> TX(<<CI("t1:0"), CI("t1:1")>>, <<>>,                       5, 1, 1, 2, "none") ]
 
 TxIds == DOMAIN Tpl
-AllTx == <<"t1","t2","t3","t4","t5","t6","t7","t8","t9","t10","t11","t12","t13","t14","t15","t16","t17","t18","t19">>
+AllTx == <<"t1","t2","t3","t4","t5","t6","t7","t8","t9","t10","t11","t12","t13","t14","t15","t16","t17","t18","t19","t20","t21">>
 InitDb == [coins |-> {"c1","c2","c3","c4","c5","c6"}, msgs |-> {"m1"}, contracts |-> {"k1"},
            txs |-> {}, blobs |-> {}]
 
@@ -70,7 +72,8 @@ Cstr ==
      [gas |-> 100, txs |-> 100, size |-> 2,   price |-> 0, excl |-> {}],
      [gas |-> 100, txs |-> 100, size |-> 100, price |-> 2, excl |-> {}],
      [gas |-> 100, txs |-> 100, size |-> 100, price |-> 0, excl |-> {"k2"}],
-     [gas |-> 4,   txs |-> 2,   size |-> 3,   price |-> 1, excl |-> {"k1"}] >>
+     [gas |-> 4,   txs |-> 2,   size |-> 3,   price |-> 1, excl |-> {"k1"}],
+     [gas |-> 100, txs |-> 2,   size |-> 100, price |-> 0, excl |-> {}] >>
 
 (* ------------------------------------------------------------------ template accessors *)
 
@@ -716,7 +719,16 @@ BlockReconciles ==
             /\ CoinOut(t) \cap P'.xcoins = {}
             /\ \A c \in Creates(t) : c \in DOMAIN P'.xcon => P'.xcon[c] # t
             /\ t \notin P'.pool => \A x \in P'.pool : CoinIn(x) \cap CoinOut(t) = {}
-            /\ ~InLru(P'.lru, t)]_<<vars, act>>
+            /\ ~InLru(P'.lru, t)
+            \* "may be submitted again": unless the pool still tracks t as handed out by an extraction, no input of
+            \* t stays marked spent on t's account - a remaining marker belongs to a committed spend or to another
+            \* transaction that is handed out / preconfirmed and unsettled
+            /\ t \notin DOMAIN P'.spender =>
+                 \A k \in SpendSet(t) :
+                   InLru(P'.lru, k) =>
+                     \/ k \in g'.spent
+                     \/ \E x \in (g'.handed \cup {p[2] : p \in g'.pre} \cup DOMAIN P'.spender
+                                  \cup DOMAIN P'.tentative) \ {t} : k \in SpendSet(x)]_<<vars, act>>
 LatePreconfIsNoop ==
   [][act'.name = "Preconf" /\ act'.kind \in {"S", "F"} /\ act'.h <= P.height => P' = P]_<<vars, act>>
 
